@@ -308,7 +308,7 @@ def make_monitor(defects):
         defects.case = case
         g, tv, abstract = true_value(oracle)
         for tok in impl.split():
-            if tok == "SEGV" or tok.endswith("SEGV"):
+            if "DIED:" in tok or tok.endswith("SEGV"):
                 return "write beyond the end of the buffer (SIGSEGV on the guard page) at %s" % tok
             parts = tok.split(">")
             f = parts[0].split(":")
@@ -333,31 +333,141 @@ def make_monitor(defects):
 
 
 # --------------------------------------------------------------------------
+DIED_RE = None
+MAX_LOCATE = 3          # crashes per group whose (case, size) is pinned down one call per process
+MAX_CRASHES = 25        # after that many dead harness processes the rest of the group is not run
+
+
+def run_batch(exe, workdir, lines, env=None, timeout=600):
+    """one harness process on [lines] -> (complete output lines, unfinished last line, exit status, stderr).
+    exit status: 0 ok, negative = killed by that signal, 3 = the harness's own fatal-signal handler"""
+    try:
+        p = subprocess.run([exe, "A" * ARGV_PAD], input="\n".join(lines) + "\n", cwd=workdir, env=env,
+                           stdout=subprocess.PIPE, stderr=subprocess.PIPE, text=True, timeout=timeout)
+        so, se, rc = p.stdout, p.stderr, p.returncode
+    except subprocess.TimeoutExpired as e:
+        so = e.stdout.decode("utf-8", "replace") if isinstance(e.stdout, bytes) else (e.stdout or "")
+        se, rc = "timeout", -9
+    got = so.split("\n")
+    partial = got.pop() if got else ""
+    return got, partial, rc, se
+
+
+def parse_died(line):
+    """'... DIED:<sig>:<cap token>:<size of the failing call>' -> (sig, cap, size) or None"""
+    import re
+    m = re.search(r"DIED:(\d+):(\d+):(\d+)\s*$", line)
+    return (int(m.group(1)), int(m.group(2)), int(m.group(3))) if m else None
+
+
+def locate_crash(exe, workdir, case, hint, rc, env, search):
+    """pin a dead harness down to one call: returns dict(case, cap, size, sig, oracle, confirmed).
+    [hint] is the unfinished output line of the case (may carry the oracle and a DIED marker)."""
+    lhs, caps = case.split("|", 1)
+    caps = caps.split()
+    info = {"case": case, "cap": None, "size": None, "sig": (-rc if rc < 0 else None), "confirmed": False,
+            "oracle": hint.split("|")[0].strip() if "|" in hint else ""}
+    d = parse_died(hint)
+    order = list(caps)
+    if d:
+        info["sig"], info["cap"], info["size"] = d
+        order = [str(d[1])] + [c for c in caps if c != str(d[1])]
+    elif "|" in hint and hint.split("|", 1)[1].split():
+        last = hint.split("|", 1)[1].split()[-1].split(":")[0]      # token being printed when it died
+        if last.isdigit():
+            order = [last] + [c for c in caps if c != last]
+    if not search:
+        order = order[:1] if (d or order != caps) else []
+    for c in order:                                                  # one call per process
+        got, partial, rc1, _ = run_batch(exe, workdir, ["%s| %s" % (lhs, c)], env, timeout=120)
+        text = (got[0] if got else partial)
+        if rc1 != 0 or not got:
+            d1 = parse_died(text)
+            info.update(cap=int(c), confirmed=True, case="%s| %s" % (lhs, c),
+                        sig=(d1[0] if d1 else (-rc1 if rc1 < 0 else info["sig"])),
+                        size=(d1[2] if d1 else int(c)))
+            if "|" in text and not info["oracle"]:
+                info["oracle"] = text.split("|")[0].strip()
+            break
+    return info
+
+
 def run_group(exe, workdir, lines, env=None):
-    """run the harness on [lines]; restart after a crash so that every case gets a line"""
+    """run the harness on [lines] in one process; when it dies, isolate the case (and the size) that
+    killed it, put CRASHED in its place and go on with the cases after it.
+    -> (one output line per case, stderr, crashes)"""
     os.makedirs(workdir, exist_ok=True)
-    out, errs = [], ""
+    out, errs, crashes = [], "", []
     rest = list(lines)
-    guard = 0
-    while rest and guard < 60:
-        guard += 1
-        p = subprocess.run([exe, "A" * ARGV_PAD], input="\n".join(rest) + "\n", cwd=workdir, env=env,
-                           stdout=subprocess.PIPE, stderr=subprocess.PIPE, text=True, timeout=600)
-        got = p.stdout.split("\n")
-        if got and got[-1] == "":
-            got.pop()
-        errs += p.stderr
-        if len(got) >= len(rest):
+    while rest:
+        got, partial, rc, se = run_batch(exe, workdir, rest, env)
+        errs += se
+        if got and parse_died(got[-1]):              # the handler finished the line before leaving
+            partial = got.pop()
+        if rc == 0 and len(got) >= len(rest):
             out += got[:len(rest)]
-            rest = []
+            break
+        k = min(len(got), len(rest))
+        out += got[:k]
+        if k >= len(rest):                           # every case answered, death afterwards
+            crashes.append({"case": "", "cap": None, "size": None, "sig": -rc if rc < 0 else None,
+                            "confirmed": False, "oracle": "", "after_all_cases": True, "rc": rc})
+            break
+        crashes.append(locate_crash(exe, workdir, rest[k], partial, rc, env, len(crashes) < MAX_LOCATE))
+        out.append("CRASHED")
+        rest = rest[k + 1:]
+        if len(crashes) >= MAX_CRASHES:
+            out += ["NOTRUN"] * len(rest)
+            break
+    return out, errs, crashes
+
+
+def show_value(oracle, case):
+    """readable form of the value a crashing call was made for"""
+    src = oracle if oracle else case.split("|")[0]
+    vals = []
+    for t in src.split()[1:]:
+        if t.startswith("x"):
+            try:
+                b = bytes.fromhex(t[1:])
+                r = repr(b[:48])[1:] + ("...(%d bytes)" % len(b) if len(b) > 48 else "")
+                vals.append(r)
+            except ValueError:
+                vals.append(t[:40])
         else:
-            if not got:
-                got = ["? | CRASH rc=%d" % p.returncode]
-            elif not got[-1].rstrip().endswith("SEGV"):
-                got[-1] = got[-1] + " CRASH rc=%d" % p.returncode
-            out += got
-            rest = rest[len(got):]
-    return out, errs
+            vals.append(t[:40])
+    return " ".join(vals) if vals else "(no value)"
+
+
+def report_crashes(chk, getter, crashes, stderr, flavour=""):
+    import signal as _sig
+    for n, c in enumerate(crashes):
+        if n >= 3:
+            break
+        if c.get("after_all_cases"):
+            chk.violation("%s: harness died after its last case (exit %s)" % (getter, c.get("rc")),
+                          {"kind": "harness", "stderr": stderr[-1000:]}, found_input=False)
+            continue
+        try:
+            signame = _sig.Signals(c["sig"]).name if c["sig"] else "?"
+        except ValueError:
+            signame = str(c["sig"])
+        head = "write past the buffer (guard page fault / signal %s %s)" if c["sig"] in (7, 11, None) \
+            else "process died inside the getter (signal %s %s)"
+        what = (head + " in %s%s with size %s for value %s") % (
+            c["sig"] if c["sig"] else "?", signame, getter, flavour,
+            c["size"] if c["size"] is not None else "?", show_value(c["oracle"], c["case"]))
+        if c["cap"] is not None and c["size"] is not None and c["size"] != c["cap"]:
+            what += " (the retry after UV_ENOBUFS from size %d)" % c["cap"]
+        if not c["confirmed"]:
+            what += " [not reproduced in a process of its own: first case of a batch that died]"
+        chk.violation(what, {"kind": "monitor", "obligation": "no write beyond the given size (C19_no_overflow)",
+                             "case": c["case"], "oracle": c["oracle"], "signal": c["sig"], "size": c["size"],
+                             "how": "bin/check C19 --replay <this file>; the buffer of <size> bytes ends at a "
+                                    "PROT_NONE page (harness/c19_getters.c)"},
+                      found_input=True)
+    if len(crashes) > 3:
+        chk.cov.setdefault("further_crashes", {})[getter + flavour] = len(crashes) - 3
 
 
 def main():
@@ -414,14 +524,17 @@ def main():
                 res_a = {k: f.result() for k, f in futs.items()}
             nas = 0
             for k in groups:
-                oa, ea = res_a[k]
+                oa, ea, ca = res_a[k]
                 on = res[k][0]
+                if ca and not res[k][2]:
+                    report_crashes(chk, k, ca, ea, flavour=" (asan flavour)")
                 if "Sanitizer" in ea or "runtime error" in ea:
                     chk.violation("%s: sanitizer report on the asan flavour" % k,
                                   {"kind": "asan", "stderr": ea[-3000:]}, found_input=False)
                 for ln, x, y in zip(groups[k], on, oa):
                     nas += 1
                     if x != y and k not in ("title", "exepath") and not x.startswith("SKIP") \
+                            and x not in ("CRASHED", "NOTRUN") and y not in ("CRASHED", "NOTRUN") \
                             and not ln.startswith("sockname x |"):       # autobind: the kernel picks the name
                         chk.violation("%s: asan flavour and shipped flavour differ" % k,
                                       {"kind": "asan", "case": ln, "ndebug": x[:2000], "asan": y[:2000]},
@@ -435,9 +548,14 @@ def main():
     monitor = make_monitor(defects)
     ncalls, skipped = 0, {}
     for k in groups:
-        out, err = res[k]
+        out, err, crashes = res[k]
+        report_crashes(chk, k, crashes, err)
+        if crashes:
+            chk.cov.setdefault("harness_deaths", {})[k] = len(crashes)
         cases, impl, mlines = [], [], []
         for ln, o in zip(groups[k], out):
+            if o in ("CRASHED", "NOTRUN"):
+                continue
             if o.startswith("SKIP"):
                 skipped[k] = skipped.get(k, 0) + 1
                 continue
